@@ -564,6 +564,59 @@ pub fn run(rep: &mut Report, thorough: bool) {
         );
         rep.stage("sibling-destinations", "5 pairs of destination addresses (other address, same /64, same /24) x ordered pairs of 4 protocols: two connections from one client endpoint, the second one answered by the responder of ITS leading bytes", scen2.len() as u64, t0);
     }
+    // a connection belongs to the responder its FIRST bytes selected: a later message that reads as
+    // another protocol's request (sent, as a real client does, with the acknowledgement number
+    // advanced past the first answer) is not handed to that other responder
+    {
+        let t0 = std::time::Instant::now();
+        let firsts: Vec<&Payload> = pls.iter().filter(|p| ["http-get", "ssh-2", "smb2-negotiate", "rpc-tcp-getport", "ghost"].contains(&p.name)).collect();
+        let mut n = 0u64;
+        if let Ok(mut d) = Driver::spawn(&cfg) {
+            for v6 in [false, true] {
+                let f = flow(v6, 40000, 80);
+                let ck = learn_cookies(&cfg, &[f.clone()]).unwrap_or_default();
+                let c = ck.get(&key_of(&f)).copied().unwrap_or(0).wrapping_add(1);
+                for (xi, x) in firsts.iter().enumerate() {
+                    for (yi, y) in firsts.iter().enumerate() {
+                        if xi == yi {
+                            continue;
+                        }
+                        let first = Cmd::Frame(f.tcp(1000, c, crate::wire::F_PSH | crate::wire::F_ACK, &x.bytes));
+                        let o1 = d.exec(&[Cmd::Reset, first.clone()]).map(|v| v[1].clone()).unwrap_or_default();
+                        let l1 = o1.reply.as_deref().and_then(crate::mask::app_payload).map(|(_, p)| p.len() as u32).unwrap_or(0);
+                        if l1 == 0 {
+                            continue;
+                        }
+                        for adv in [l1, 1, 0x8000_0000] {
+                            let second = Cmd::Frame(f.tcp(1000 + x.bytes.len() as u32, c.wrapping_add(adv), crate::wire::F_PSH | crate::wire::F_ACK, &y.bytes));
+                            let cmds = vec![Cmd::Reset, first.clone(), second];
+                            let o = d.exec(&cmds).unwrap_or_default();
+                            n += 2;
+                            let app = o.get(2).and_then(|o| o.reply.as_deref()).and_then(crate::mask::app_payload).map(|(_, p)| p).unwrap_or_default();
+                            if app.is_empty() {
+                                continue;
+                            }
+                            let got = responder_of(&app);
+                            let first_resp = responder_of(&o1.reply.as_deref().and_then(crate::mask::app_payload).map(|(_, p)| p).unwrap_or_default());
+                            if got != first_resp {
+                                rep.sink.violation(Violation {
+                                    prop: "C10".into(),
+                                    key: format!("later-message-redispatched:{}-after:{}", got, first_resp),
+                                    what: format!("connection answered by {} for '{}': a later '{}' (acknowledgement number advanced by {}) is answered by {}", first_resp, x.name, y.name, adv, got),
+                                    cfg: cfg.clone(),
+                                    cmds,
+                                    idx: n,
+                                    stage: "advanced-ack-conversations".into(),
+                                });
+                            }
+                        }
+                    }
+                }
+            }
+        }
+        rep.sink.count("frames", n);
+        rep.stage("advanced-ack-conversations", "ordered pairs of 5 protocols' requests on one connection x {v4,v6} x acknowledgement number of the second advanced by {length of the first answer, 1, 2^31}: whoever answers the second is the responder that answered the first", n, t0);
+    }
     // non-data segments BETWEEN the segments of a request (a bare ACK with the valid / another
     // acknowledgement number, a retransmitted SYN, RST, RST|ACK, FIN|ACK, FIN) do not reset, bind or
     // shift what the connection has seen: the responder is the one the whole stream selects
